@@ -259,6 +259,15 @@ class BlockMeanFilter(Contract):
             if ncomp == 1:
                 data, w = data[0], (w[0] if w else None)
             yield (est, (arrs[0], arrs[1]), data), dict(weights=w)
+        # weights (and data) of an integer dtype - counts, whole-number 1/sigma**2 - for both weighting rules
+        for unc in (True, False, True):
+            n = rng.randint(8, 25)
+            ncomp = rng.randint(1, 2)
+            data = tuple(nrng.randint(-9, 9, n).astype(rng.choice(["int64", "float64"])) for _ in range(ncomp))
+            w = tuple(nrng.randint(1, 6, n).astype(rng.choice(["int64", "int32"])) for _ in range(ncomp))
+            if ncomp == 1:
+                data, w = data[0], w[0]
+            yield (verde.BlockMean(spacing=rng.choice([2.0, 4.0]), uncertainty=unc), (nrng.uniform(-5, 5, n), nrng.uniform(-5, 5, n)), data), dict(weights=w)
         yield (verde.BlockMean(spacing=1.0, uncertainty=True), (np.zeros(3), np.zeros(3)), np.ones(3)), {}
 
     tol = (1e-9, 1e-9)
